@@ -10,6 +10,8 @@ import (
 	"flag"
 	"fmt"
 	"os"
+	"path/filepath"
+	"runtime"
 	"runtime/debug"
 	"sort"
 	"strings"
@@ -147,10 +149,45 @@ func newCtx(id, tier string, shard, nshards int, budget time.Duration) *Ctx {
 }
 
 // protect runs f, converting a panic into (stack, true).
-func protect(f func()) (stack string, panicked bool) {
+// stepBudget: scheduling points one guarded API call may pass (the largest call in any check stays below a
+// hundredth of it); a call that exceeds it is reported as not terminating.
+const stepBudget = 400000
+
+func protect(f func()) (stack string, panicked bool) { return guard(f, stepBudget) }
+
+// maxSteps: the largest number of scheduling points any guarded call of this run passed (reported in the evidence).
+var maxSteps int64
+
+// guard runs f, turning a panic into a report; budget > 0 bounds the scheduling points f may pass (0: no bound).
+// Budgets nest: an inner guarded call has its own and the enclosing one resumes afterwards.
+func guard(f func(), budget int64) (stack string, panicked bool) {
+	prev := rt.Budget
+	rt.Budget = budget
 	defer func() {
+		if budget > 0 && budget-rt.Budget > maxSteps {
+			maxSteps = budget - rt.Budget
+		}
+		rt.Budget = prev
 		if r := recover(); r != nil {
 			panicked = true
+			if _, ok := r.(rt.BudgetExhausted); ok {
+				// the stack may be hundreds of thousands of frames deep: report the innermost ones only
+				pcs := make([]uintptr, 24)
+				n := runtime.Callers(3, pcs)
+				fr := runtime.CallersFrames(pcs[:n])
+				var top []string
+				for {
+					f, more := fr.Next()
+					if strings.Contains(f.Function, "mxj/v2") && !strings.Contains(f.Function, "zzverifrt") {
+						top = append(top, fmt.Sprintf("%s (%s:%d)", f.Function, filepath.Base(f.File), f.Line))
+					}
+					if !more || len(top) >= 6 {
+						break
+					}
+				}
+				stack = fmt.Sprintf("does not terminate: more than %d function entries / loop iterations in one call (unbounded recursion or loop); innermost frames:\n%s", stepBudget, strings.Join(top, "\n"))
+				return
+			}
 			stack = fmt.Sprintf("%v\n%s", r, trimStack(string(debug.Stack())))
 		}
 	}()
@@ -208,7 +245,7 @@ func main() {
 		}
 		c := newCtx(id, *tier, *shard, *nshards, b)
 		initBaseline()
-		if st, pan := protect(func() { p.Run(c) }); pan {
+		if st, pan := guard(func() { p.Run(c) }, 0); pan {
 			c.Broken("harness panic outside any guarded call: %s", st)
 		}
 		// end of run: with every option set back to its default, the package state must be the
@@ -223,6 +260,8 @@ func main() {
 			c.Count("end_of_run_state_differs", 1)
 		}
 		c.S.Outcomes = int64(len(c.outcomes))
+		c.Count("max_steps_in_one_guarded_call", 0)
+		c.S.Counters["max_steps_in_one_guarded_call"] = maxSteps
 		c.S.WallS = time.Since(c.start).Seconds()
 		if rt.OrderCapped {
 			c.Cap(fmt.Sprintf("map-order choice points with more than %d keys use the capped order set (sorted, reversed, rotations, adjacent transpositions)", rt.MaxFullPerm))
@@ -257,7 +296,7 @@ func main() {
 			Sequence []json.RawMessage `json:"sequence"`
 		}
 		json.Unmarshal(r.Case, &seq)
-		if st, pan := protect(func() {
+		if st, pan := guard(func() {
 			if len(seq.Sequence) > 0 {
 				// a multi-step history: replay the cases in order in this one process
 				for _, cs := range seq.Sequence {
@@ -266,7 +305,7 @@ func main() {
 				return
 			}
 			p.Replay(c, r.Case, r.Choices)
-		}); pan {
+		}, 0); pan {
 			fmt.Println("harness panic:", st)
 			os.Exit(2)
 		}
